@@ -1184,7 +1184,7 @@ fn main() {
     }
 
     // ---- search: metric axioms and closed forms ----
-    let reps = if a.thorough { 400 } else { 24 };
+    let reps = if a.thorough { 1000 } else { 24 };
     let mut all_kinds: Vec<Kind> = vec![Kind::Euclid, Kind::Manhattan, Kind::Hamming];
     for p in 1..=8u16 {
         all_kinds.push(Kind::Minkowski(p));
@@ -1219,7 +1219,7 @@ fn main() {
         }
     }
     // ---- search: Mahalanobis from covariances and from data ----
-    let nm = if a.thorough { 40000 } else { 4000 };
+    let nm = if a.thorough { 100000 } else { 4000 };
     for i in 0..nm {
         let f32m = i % 4 == 3;
         let n = if i % 10 == 0 { 30 } else if i % 10 == 1 { 1 } else { rng.usize_in(1, if f32m { 12 } else { 30 }) };
